@@ -9,13 +9,14 @@ for d in "$@"; do
   out=$d/confirm.txt
   wt=/tmp/wt-confirm-$id
   rm -rf $wt; git -C /repo worktree prune
-  git -C /repo worktree add --detach $wt HEAD -q || { echo "worktree failed" > $out; continue; }
+  base=$(python3 -c "import json,sys; print(json.load(open('$d/meta.json')).get('base','HEAD'))" 2>/dev/null || echo HEAD)
+  git -C /repo worktree add --detach $wt $base -q || { echo "worktree failed" > $out; continue; }
   mkdir -p /tmp/confirm-tmp-$id
   dst=$(grep -o 'leveldb[a-z/_]*seeded_[a-z0-9_]*_test.go' $d/demo_test.go | head -1)
   [ -z "$dst" ] && dst=leveldb/seeded_$(echo $id | tr A-Z a-z)_test.go
   cp $d/demo_test.go $wt/$dst
   {
-    echo "seeded $id  repo HEAD $(git -C /repo rev-parse --short HEAD)  demo at $dst"
+    echo "seeded $id  repo HEAD $(git -C /repo rev-parse --short HEAD)  base $base  demo at $dst"
     pkg=./$(dirname $dst)/
     echo "--- (1) demo on unmodified tree (expect PASS)"
     (cd $wt && TMPDIR=/tmp/confirm-tmp-$id timeout 600 go test -vet=off -count=1 -run 'TestSeeded' $pkg 2>&1 | tail -3)
